@@ -46,7 +46,7 @@ func (p *parser) parse(src string, out map[string]string, lookupFn LookupFn) err
 		if err != nil {
 			return err
 		}
-		if strings.Contains(key, " ") {
+		if strings.IndexFunc(key, unicode.IsSpace) != -1 {
 			return fmt.Errorf("line %d: key cannot contain a space", p.line)
 		}
 
